@@ -154,6 +154,21 @@ func pngUp(b []byte, cols int) []byte {
 	return o.Bytes()
 }
 
+// tiffSub applies the TIFF predictor (Predictor 2, 8 bits, one colour): each byte minus its left neighbour in the row.
+func tiffSub(b []byte, cols int) []byte {
+	for len(b)%cols != 0 {
+		b = append(b, ' ')
+	}
+	o := make([]byte, len(b))
+	for i := 0; i < len(b); i += cols {
+		o[i] = b[i]
+		for j := 1; j < cols; j++ {
+			o[i+j] = b[i+j] - b[i+j-1]
+		}
+	}
+	return o
+}
+
 func encode(raw []byte, filter string) ([]byte, pdfw.Dict) {
 	switch filter {
 	case "fl":
@@ -167,6 +182,10 @@ func encode(raw []byte, filter string) ([]byte, pdfw.Dict) {
 	case "ahxfl":
 		return hexEnc(pdfw.Deflate(raw)), pdfw.Dict{{"Filter", pdfw.Arr{pdfw.Name("ASCIIHexDecode"), pdfw.Name("FlateDecode")}},
 			{"DecodeParms", pdfw.Arr{pdfw.Null{}, pdfw.Null{}}}}
+	case "fltiff":
+		cols := 16
+		return pdfw.Deflate(tiffSub(append([]byte{}, raw...), cols)), pdfw.Dict{{"Filter", pdfw.Name("FlateDecode")},
+			{"DecodeParms", pdfw.Dict{{"Predictor", pdfw.Int(2)}, {"Columns", pdfw.Int(cols)}, {"Colors", pdfw.Int(1)}, {"BitsPerComponent", pdfw.Int(8)}}}}
 	case "flpng":
 		cols := 16
 		// content streams padded with spaces to a multiple of the row size stay valid
@@ -526,6 +545,7 @@ func Build(L Layout, base [][]Item, rev2page1 []Item, rev3page []Item) ([]byte, 
 			rev.XRefNum = next
 			next++
 			rev.FlateXRef = L.ObjStm == "dictsflate"
+			rev.XRefPredictor = rev.FlateXRef && (L.Filter == "flpng" || L.Filter == "fltiff")
 		}
 		rev.Items = items
 		f.Revs = append(f.Revs, rev)
